@@ -2,4 +2,5 @@
 #include "momo/HashSet.h"
 namespace momo { template class HashSet<uint64_t>; }
 // member templates (pvAddGrow<ItemCreator>) are instantiated by use
-void c11_use(momo::HashSet<uint64_t>& s) { s.Insert(uint64_t(1)); }
+struct C11Filter { bool operator()(const uint64_t& x) const { return x == 0; } };
+void c11_use(momo::HashSet<uint64_t>& s) { s.Insert(uint64_t(1)); s.Remove(C11Filter()); }
